@@ -146,7 +146,7 @@ fn run(ctx: &mut Ctx) {
     let cfgs = SerCfg::all();
     let mut r = ctx.rng(14);
     let mut mloc = super::c07::Local::default();
-    let n = ctx.scaled(t.pick(80_000, 800_000)) / ctx.nshards as u64;
+    let n = ctx.scaled(t.pick(80_000, 4_000_000)) / ctx.nshards as u64;
     let mut prev = String::from("<s_inner a_id=\"1\"><t_v>v</t_v></s_inner>");
     'outer: for k in 0..n {
         let (own, doc) = super::c07::base_doc(&mut r, &fam, &ovl, &opt, &cfgs);
